@@ -1,7 +1,7 @@
 (* C09 - Text is emitted line by line with exactly one correct terminator. *)
 From Coq Require Import List String ZArith NArith.
 Open Scope string_scope.
-From Pory Require Import Lexer Ast Parser Emitter Props1.
+From Pory Require Import Lexer Ast Parser Emitter Props1 TopProps.
 Import ListNotations.
 
 Theorem suffix_table :
@@ -31,3 +31,9 @@ Print Assumptions text_lines_concat.
 Theorem text_lines_count : forall v, List.length (split_nl v []) = S (List.length (filter (fun c => (c =? 10)%N) v)).
 Proof. exact Props1.text_lines_count. Qed.
 Print Assumptions text_lines_count.
+
+(* a text block is its label followed by one directive per line of the value: .string unless a type prefix names another *)
+Theorem text_block_shape : forall x,
+  emit_text None x = ILabel (xname x) (xglob x) :: map (fun line => IData (directive x) line) (split_nl (xvalue x) []).
+Proof. exact TopProps.emit_text_shape. Qed.
+Print Assumptions text_block_shape.
